@@ -421,4 +421,64 @@ theorem lines_spec (source : List Char) :
 example : mypyComments "# mypy: a\nx = 1\n# mypy: b c\n # mypy: d\n# mypy:e".toList
     = [(1, "a".toList), (3, "b c".toList)] := by decide
 
+/-! ## module-level `# type: ignore` (the rule of `translate_stmt_list`, with the decorator-line convention) -/
+
+/-- **a `# type: ignore` comment ignores the whole module exactly when it stands before the first statement**,
+    where a decorated `def` / `class` starts at its *first decorator* (`get_lineno`), not at its keyword -/
+theorem module_ignore_iff (ign : List (Nat × Codes)) (s : FirstStmt) :
+    (moduleIgnore ign (some s)).wholeModule = true ↔ ∃ p ∈ ign, p.1 < getLineno s :=
+  moduleIgnore_whole_iff ign s
+
+/-- when it does, exactly the *first* such comment is consumed (every other ignore stays a line-level one), and
+    an error is reported iff that comment carries codes -/
+theorem module_ignore_consumes_first (ign : List (Nat × Codes)) (s : FirstStmt)
+    (h : (moduleIgnore ign (some s)).wholeModule = true) :
+    ∃ m, minLine ign = some m ∧ m < getLineno s ∧ (∀ p ∈ ign, m ≤ p.1) ∧
+      (moduleIgnore ign (some s)).ignores = ign.filter (fun p => p.1 != m) ∧
+      ((moduleIgnore ign (some s)).errCodes = none ∨
+        ∃ c cs, lookupLine m ign = some (c :: cs) ∧ (moduleIgnore ign (some s)).errCodes = some (m, c :: cs)) :=
+  moduleIgnore_fired ign s h
+
+/-- otherwise nothing is touched: all comments are line-level ignores, no error -/
+theorem module_ignore_otherwise_untouched (ign : List (Nat × Codes)) (first : Option FirstStmt)
+    (h : (moduleIgnore ign first).wholeModule = false) :
+    (moduleIgnore ign first).ignores = ign ∧ (moduleIgnore ign first).errCodes = none :=
+  moduleIgnore_not_fired ign first h
+
+/-- **the decorator-line convention**: a comment on (or after) the first decorator's line of a decorated
+    first definition is a line-level ignore, never a module-level one -/
+theorem decorator_line_ignore_is_line_level (ign : List (Nat × Codes)) (line d : Nat)
+    (h : ∀ p ∈ ign, d ≤ p.1) :
+    moduleIgnore ign (some { line := line, firstDecoratorLine := some d })
+      = { wholeModule := false, errCodes := none, ignores := ign } := by
+  have hw : (moduleIgnore ign (some { line := line, firstDecoratorLine := some d })).wholeModule = false := by
+    cases hb : (moduleIgnore ign (some { line := line, firstDecoratorLine := some d })).wholeModule with
+    | false => rfl
+    | true =>
+      obtain ⟨p, hp, hlt⟩ := (moduleIgnore_whole_iff ign _).mp hb
+      have := h p hp
+      simp only [getLineno] at hlt
+      omega
+  obtain ⟨h1, h2⟩ := moduleIgnore_not_fired ign _ hw
+  cases hr : moduleIgnore ign (some { line := line, firstDecoratorLine := some d }) with
+  | mk w e i =>
+    rw [hr] at hw h1 h2
+    simp only at hw h1 h2
+    rw [hw, h1, h2]
+
+/-- a module without statements has no module-level ignore -/
+theorem module_ignore_needs_a_statement (ign : List (Nat × Codes)) :
+    moduleIgnore ign none = { wholeModule := false, errCodes := none, ignores := ign } := by
+  unfold moduleIgnore; rfl
+
+-- `@deco  # type: ignore[name-defined]` on line 1, `def` on line 2: line-level (get_lineno = 1) …
+example : moduleIgnore [(1, ["name-defined".toList])] (some { line := 2, firstDecoratorLine := some 1 })
+    = { wholeModule := false, errCodes := none, ignores := [(1, ["name-defined".toList])] } := by decide
+-- … whereas comparing with the `def` line would swallow the module and report the codes (the rule is not vacuous)
+example : moduleIgnore [(1, ["name-defined".toList])] (some { line := 2, firstDecoratorLine := none })
+    = { wholeModule := true, errCodes := some (1, ["name-defined".toList]), ignores := [] } := by decide
+-- two comments before the first statement: only the first is consumed
+example : moduleIgnore [(1, []), (2, ["misc".toList]), (4, [])] (some { line := 3, firstDecoratorLine := none })
+    = { wholeModule := true, errCodes := none, ignores := [(2, ["misc".toList]), (4, [])] } := by decide
+
 end ParseNorm
